@@ -28,7 +28,7 @@ ASSUMPTIONS = [
     'actual draws are still read from the recorder',
     'scenario ends before the first 75 % refresh (C10\'s subject)',
 ]
-BUDGET = {'quick': {'examples': 700}, 'thorough': {'examples': 6000, 'shards': 16}}
+BUDGET = {'quick': {'examples': 1400}, 'thorough': {'examples': 8000, 'shards': 16}}
 EPS = 0.05   # ms; asking instants are known exactly, only the per-iteration clock drift (microseconds) separates them
 TYPES = ['_a._tcp.local.', '_b._tcp.local.']
 PEER = ('10.0.0.9', 5353)
